@@ -128,7 +128,8 @@ def run(ctx):
                 "entanglement deliveries through the pending-response list (request/response scenarios of the C12 "
                 "stream with random schedules over {instruction, deliver, poll}; half with the link layer reserving each "
                 "kept qubit from the executor's pool, half without pre-reservation (any id unused at delivery time, used "
-                "must equal mapped exactly, parked responses mark nothing; also across stop + re-registration); directed: a response parked ahead of handleable ones, a request whose subroutine ended); non-trivial = at least one qubit was "
+                "must equal mapped exactly, parked responses mark nothing; also across stop + re-registration); directed: a response parked ahead of handleable ones, a request whose subroutine ended, two applications with requests towards different remote nodes and "
+                "equal purpose ids (a third of the random ones run on a stack whose purpose id is the socket id)); non-trivial = at least one qubit was "
                 "mapped at some point; distinct by history JSON")
     rng = ctx.rng
     drv = ctx.driver
@@ -266,7 +267,7 @@ def run(ctx):
             {"k": "spawn", "a": 1, "p": [list(i) for i in sub_a]}] + ticks}, "interleaved-msg")
         if len(res.failures) >= 5:
             return res
-    n_mpar = 4000 if ctx.thorough else 200
+    n_mpar = 4000 if ctx.thorough else 150
     for k in range(n_mpar):
         check(H.par_scenario(rng, rng.choice([10, 20, 40]), msg=True, identical=(k % 2 == 0)), "interleaved-msg")
         if len(res.failures) >= 5:
@@ -285,8 +286,8 @@ def run(ctx):
     from harness import epr as E
     E.quiet()
 
-    def check_pending(sc, toks, tag, reserve=True):
-        rp, dc = P.run_case(sc, toks, drv, reserve=reserve)
+    def check_pending(sc, toks, tag, reserve=True, pmul=1000):
+        rp, dc = P.run_case(sc, toks, drv, reserve=reserve, pmul=pmul)
         res.evaluations += 1
         res.count("mode:pending-list" + ("" if reserve else ":no-pre-reservation"))
         for st in rp.steps:
@@ -301,15 +302,16 @@ def run(ctx):
         if rp.c13:
             v = rp.c13[0]
             desc = json.loads(json.dumps(sc.desc(), default=str))
-            small = P.shrink_schedule(desc, [list(t) for t in toks], v["what"], reserve)
-            rp2 = P.PoolReplayer(E.Scenario.from_desc(json.loads(json.dumps(desc))), E.new_executor(), reserve=reserve)
+            small = P.shrink_schedule(desc, [list(t) for t in toks], v["what"], reserve, pmul)
+            rp2 = P.PoolReplayer(E.Scenario.from_desc(json.loads(json.dumps(desc))), P.new_executor(pmul),
+                                 reserve=reserve, pmul=pmul)
             for t in small:
                 rp2.step(tuple(t))
                 if rp2.stopped:
                     break
             v2 = ([x for x in rp2.c13 if x["what"] == v["what"]] or [v])[0]
             res.failures.append({"what": v["what"], "kf": None, "input": {
-                "scenario": desc, "link_layer_pre_reserves": reserve, "programs": [sp.text().split("\n")[2:] for sp in sc.subs], "schedule": small,
+                "scenario": desc, "link_layer_pre_reserves": reserve, "purpose_id_is_socket_id": pmul == 0, "programs": [sp.text().split("\n")[2:] for sp in sc.subs], "schedule": small,
                 "detail": json.loads(json.dumps(v2, default=str))}})
 
     for reserve in (True, False):
@@ -318,20 +320,24 @@ def run(ctx):
         for pairs, other in ((1, True), (2, False), (2, True)):
             check_pending(*P.parked_then_stop_scenario(pairs, other), tag="pending-corpus", reserve=reserve)
         check_pending(*P.blocked_head_scenario(2, "busy"), tag="pending-corpus", reserve=reserve)
+    # two applications, requests towards different remote nodes with EQUAL purpose ids (stack: purpose = socket)
+    for pairs in (1, 2):
+        for first in ("later", "earlier"):
+            check_pending(*P.same_purpose_scenario(pairs, first), tag="pending-corpus", pmul=0)
     for number in (2, 3):
         for blocked in ("norecv", "busy"):
             check_pending(*P.blocked_head_scenario(number, blocked), tag="pending-corpus")
     for pairs, vq, early in [(p_, v_, False) for p_ in (1, 2) for v_ in (0, 1, 2)] + [(1, 1, True), (2, 2, True)]:
         check_pending(*P.stale_request_scenario(pairs, vq, early), tag="pending-corpus")
-    n_pend = 2500 if ctx.thorough else 180
+    n_pend = 2500 if ctx.thorough else 150
     for k in range(n_pend):
         sc = E.gen_scenario(rng, mixed_roles=(k % 3 == 0))
         toks = E.random_schedule(sc, rng, early=rng.choice([0, 0, 1, 2]))
-        check_pending(sc, toks, "pending-random", reserve=(k % 2 == 0))
+        check_pending(sc, toks, "pending-random", reserve=(k % 2 == 0), pmul=(0 if k % 3 == 1 else 1000))
         if len(res.failures) >= 5:
             return res
 
-    n_walks = 9000 if ctx.thorough else 400
+    n_walks = 9000 if ctx.thorough else 330
     for k in range(n_walks):
         msg = k % 4 == 3
         g = H.Gen(rng, encodable=msg)
